@@ -40,20 +40,22 @@ def r07a(model: Model, rr: RuleResult):
     if k:
         from ..dataflow import alternatives, resolved, fold_module_constants
         from ..guards import canon_fact
-        v = k[0].value
-        if isinstance(v, ast.Name):
-            alts = alternatives(ucfg, ucfg.node_for(k[0]), v.id, u)
-        else:
-            alts = []
-            r = resolved(ucfg, ucfg.node_for(k[0]), v)
+        alts = []
+        for kst in k:
+            v = kst.value
+            base = [canon_fact(e, pol) for e, pol in guard_facts(ucfg, ucfg.node_for(kst))]
+            if isinstance(v, ast.Name):
+                alts += [(a_, base + list(c_)) for a_, c_ in alternatives(ucfg, ucfg.node_for(kst), v.id, u)]
+            else:
+                r = resolved(ucfg, ucfg.node_for(kst), v)
 
-            def emit(e, conds):
-                if isinstance(e, ast.IfExp):
-                    emit(e.body, conds + [canon_fact(e.test, True)])
-                    emit(e.orelse, conds + [canon_fact(e.test, False)])
-                else:
-                    alts.append((norm(e), conds))
-            emit(r, [])
+                def emit(e, conds):
+                    if isinstance(e, ast.IfExp):
+                        emit(e.body, conds + [canon_fact(e.test, True)])
+                        emit(e.orelse, conds + [canon_fact(e.test, False)])
+                    else:
+                        alts.append((norm(e), conds))
+                emit(r, list(base))
         cp = u.params[0] if u.params else "config"
         vals = {a for a, _ in alts}
         forced = [c for a, c in alts if a == "True"]
@@ -225,7 +227,10 @@ def r07e(model: Model, rr: RuleResult):
     else:
         rr.bad_shape(fi, fi.node, "glyphs are not sorted by glyph id before run splitting", construct="make_cbdt_table: sort")
     inner = [st for st in ast.walk(fi.node) if isinstance(st, ast.While) and "glyph_id" in norm(st.test)]
-    if inner and "color_glyphs[end].glyph_id == color_glyphs[end - 1].glyph_id + 1" in norm(inner[0].test) and "len(color_glyphs) > end" in norm(inner[0].test):
+    from ..guards import canon_conjuncts
+    want_run = sorted(["color_glyphs[end - 1].glyph_id + 1 == color_glyphs[end].glyph_id", "end < len(color_glyphs)"])
+    if inner and (canon_conjuncts(inner[0].test) == want_run or
+                  ("color_glyphs[end].glyph_id == color_glyphs[end - 1].glyph_id + 1" in norm(inner[0].test) and "len(color_glyphs) > end" in norm(inner[0].test))):
         rr.ok("a run is extended while the next glyph id is the previous + 1")
     else:
         rr.bad_shape(fi, fi.node, "run splitting does not compare consecutive glyph ids with + 1", construct=f"run predicate {short(inner[0].test) if inner else None}")
